@@ -62,4 +62,28 @@ theorem C12_reproduces_samples (B M : Mat) (r n d : Nat) (hB : Shaped B r n) (hn
   rw [← matPts_matMul M B _ _ _ d sM hB hr hn hn pts hlen hd, hMB, ← hlen]
   exact matPts_identity pts d hd (by omega)
 
+/-- **C12 (normal equations, no side condition).**  For a tall collocation matrix the control points `Q = M Z` returned
+by the solver satisfy `Bᵀ (B Q) = Bᵀ Z` for every right-hand side. -/
+theorem C12_normal_equations_unconditional (B M Z : Mat) (r n d : Nat) (hB : Shaped B r n) (hn : 0 < n) (hrn : n < r)
+    (hM : lstsq? B = some M) :
+    (toM r n B).transpose * (toM r n B * (toM n r M * toM r d Z)) = (toM r n B).transpose * toM r d Z := by
+  have hr : 0 < r := by omega
+  have hhead : (B.headD []).length = n := by
+    cases hB' : B with
+    | nil => rw [hB'] at hB; simp [Shaped] at hB; omega
+    | cons r0 rest => rw [hB'] at hB; simpa using hB.2 r0 (by simp)
+  have sBt := transpose_shaped B r n hB hr
+  have hG : Shaped (matMul (transpose B) B) n n := matMul_shaped _ _ n r n sBt hB hr
+  unfold lstsq? at hM
+  simp only [] at hM
+  have h1 : ¬ B.length < (B.headD []).length := by rw [hhead, hB.1]; omega
+  have h2 : ¬ B.length = (B.headD []).length := by rw [hhead, hB.1]; omega
+  simp only [h1, h2, if_false, solve?, Option.map_eq_some_iff] at hM
+  obtain ⟨inv, hinv, rfl⟩ := hM
+  have hsh := invertChecked_shaped _ _ hinv
+  rw [hG.1] at hsh
+  have hchk := invertChecked_spec _ _ hinv
+  rw [hG.1] at hchk
+  exact normal_equations B inv Z r n d hB hr hn hsh hchk
+
 end NV
